@@ -26,7 +26,7 @@ type Case struct {
 	Edits     []c02.EditRef `json:"edits"`
 	Qualifier string        `json:"qualifier"` // none | empty | custom
 	Mode      int           `json:"mode"`
-	Flavour   string        `json:"flavour,omitempty"` // MySQL family: "" = mysql.DefaultPlan; mysql8 | mysql57 | maria | tidb = the planner of a driver opened against that server
+	Flavour   string        `json:"flavour,omitempty"` // "" = the Default planner; MySQL family: mysql8 | mysql57 | maria | tidb, PostgreSQL: pg15 | pg10 | crdb = the planner of a driver opened against that server
 	Span      string        `json:"span"` // "" | add-schema | drop-schema | modify-schema | two-schemas | enum-other-schema | fk-other-schema
 }
 
@@ -218,6 +218,13 @@ func checkCase(c Case) (Outcome, error) {
 	pl := planner(c.Dialect)
 	if c.Dialect == "mysql" && c.Flavour != "" {
 		drv, err := gm.OpenMySQL(c.Flavour)
+		if err != nil {
+			return out, fmt.Errorf("harness: %v", err)
+		}
+		pl = drv
+	}
+	if c.Dialect == "postgres" && c.Flavour != "" {
+		drv, err := gm.OpenPostgres(c.Flavour)
 		if err != nil {
 			return out, fmt.Errorf("harness: %v", err)
 		}
